@@ -10,6 +10,7 @@
 From Coq Require Import List NArith ZArith.
 From AnyTLS Require Import Bytes Cmd Generated Frame Reader Session FrameProofs
   SessTable SessHandle SessRecv SessPipe SessFin SessOpen.
+From AnyTLS Require Conc ConcInv ConcIds.
 Import ListNotations.
 Import Sess.
 Open Scope N_scope.
@@ -83,3 +84,33 @@ Proof.
   split; [repeat (apply Forall_cons; [unfold no_alert; cbn; discriminate|]); apply Forall_nil|].
   repeat split; vm_compute; reflexivity.
 Qed.
+
+(* streams opened CONCURRENTLY: on the interleaving model of the open / write / close paths (Model/Conc.v: open_stream
+   examines the flag, allocates the id, inserts into the two tables and submits the SYN in separate steps, any number
+   of tasks, any schedule, faults and closes included) every id a task holds was handed out by the counter, and no
+   two tasks ever hold the same id -- two streams with one id would share an inbound queue *)
+Theorem C02_concurrent_opens_distinct_ids : forall progs buf pend sched,
+  let s := Conc.run (Conc.init progs buf pend) sched in
+  (forall t sid, Conc.t_sid (Conc.tasks s t) = Some sid -> sid < Conc.next_sid s) /\
+  (forall t1 t2 sid, Conc.t_sid (Conc.tasks s t1) = Some sid -> Conc.t_sid (Conc.tasks s t2) = Some sid -> t1 = t2).
+Proof. exact ConcIds.run_ids_ok. Qed.
+Print Assumptions C02_concurrent_opens_distinct_ids.
+
+(* ... and neither stream table (`streams`, `stream_receive_tx`) ever holds an id twice, although the id is allocated and
+   the two inserts are made in three separate steps that any other task's open, any FIN and any close() may interleave with *)
+Theorem C02_one_stream_per_id : forall progs buf pend sched,
+  let s := Conc.run (Conc.init progs buf pend) sched in
+  NoDup (map fst (Conc.table s)) /\ NoDup (map fst (Conc.rtable s)) /\
+  (forall sid u, In (sid, u) (Conc.table s) -> sid < Conc.next_sid s) /\
+  (forall sid u, In (sid, u) (Conc.rtable s) -> sid < Conc.next_sid s).
+Proof.
+  intros progs buf pend sched s. destruct (ConcIds.run_tab_ok progs buf pend sched) as (R1 & T1 & R2 & T2 & _).
+  repeat split; assumption.
+Qed.
+Print Assumptions C02_one_stream_per_id.
+
+(* non-vacuity: two tasks whose opens are interleaved step by step hold the ids 1 and 2 *)
+Example C02_concurrent_opens_nonvacuous :
+  let s := Conc.run (Conc.init [[]; [Conc.COpen]; [Conc.COpen]] false []) [1;2;1;2;1;2;1;2;1;2;1;2;1;2;1;2;1;2]%nat in
+  Conc.t_sid (Conc.tasks s 1%nat) = Some 1 /\ Conc.t_sid (Conc.tasks s 2%nat) = Some 2 /\ Conc.next_sid s = 3.
+Proof. cbv zeta. repeat split; vm_compute; reflexivity. Qed.
